@@ -51,6 +51,12 @@ Corruptions(l) ==
   \cup {[f |-> "slot", k |-> "type", i |-> i, v |-> v] : i \in 1..Len(l.slots), v \in {0, 1, 2, 3, 5, 255}}
   \cup {[f |-> "slot", k |-> "color", i |-> i, v |-> v] : i \in 1..Len(l.slots), v \in {0, 1, 2}}
   \cup {[f |-> "slot", k |-> "nlen", i |-> i, v |-> v] : i \in 1..Len(l.slots), v \in {0, 1, 2, 4, 63, 64, 66, 200}}
+  \* the name itself: a forbidden character ( / \ : ! ), a NUL, an unpaired surrogate at the first or last unit,
+  \* and the name of another slot (two siblings with one key)
+  \cup {[f |-> "slot", k |-> "nchar", i |-> i, v |-> v] : i \in {j \in 1..Len(l.slots) : l.slots[j].type # 0},
+          v \in {47, 92, 58, 33, 0, 55296, 56320, -47, -58, -55296}}
+  \cup {[f |-> "slot", k |-> "nsame", i |-> p[1], v |-> p[2]] :
+          p \in {q \in (2..Len(l.slots)) \X (2..Len(l.slots)) : q[1] # q[2] /\ l.slots[q[1]].type # 0 /\ l.slots[q[2]].type # 0}}
   \cup {[f |-> "slot", k |-> "start", i |-> i, v |-> v] : i \in 1..Len(l.slots), v \in CellClasses(Len(l.fat), 0)}
   \* start sectors of small streams are mini sector ids: every id up to just beyond the MiniFAT
   \cup {[f |-> "slot", k |-> "start", i |-> i, v |-> v] :
@@ -85,6 +91,9 @@ Apply(l, c) ==
     [] c.f = "fat"        -> [l EXCEPT !.fat[c.i] = c.v]
     [] c.f = "minifat"    -> [l EXCEPT !.minifat[c.i] = c.v]
     [] c.f = "slot"       -> IF c.k = "nlen" THEN [l EXCEPT !.slots[c.i] = [nlen |-> c.v] @@ @]
+                             \* npatch = <<position, unit>>: position 0 = first unit, -1 = last unit of the name
+                             ELSE IF c.k = "nchar" THEN [l EXCEPT !.slots[c.i] = [npatch |-> <<(IF c.v < 0 THEN -1 ELSE 0), (IF c.v < 0 THEN -c.v ELSE c.v)>>] @@ @]
+                             ELSE IF c.k = "nsame" THEN [l EXCEPT !.slots[c.i].name = l.slots[c.v].name]
                              ELSE [l EXCEPT !.slots[c.i] = (c.k :> c.v) @@ @]
     [] c.f = "flen_delta" -> [flen_delta |-> c.v] @@ l
     [] c.f = "flen_abs"   -> [flen_abs |-> c.v] @@ l
